@@ -179,7 +179,7 @@ func (r *runner) repoTargets() {
 		dirs = append(dirs, d)
 	}
 	sort.Strings(dirs)
-	budget := c.N(1000, 20000)
+	budget := c.N(1000, 5000)
 	cache := filepath.Join(c.Scratch, "repofuzzcache")
 	tmp := filepath.Join(c.Scratch, "repotmp")
 	_ = os.MkdirAll(tmp, 0o755)
